@@ -1,4 +1,6 @@
 SPECIFICATION TSpec
-CONSTANT KnownF4 = TRUE
+CONSTANTS
+  KnownF4 = TRUE
+  KnownF10 = TRUE
 POSTCONDITION TraceAccepted
 CHECK_DEADLOCK FALSE
